@@ -73,8 +73,8 @@ package setec
 //@   ensures [C13 flush.at-most-one] cacheWrites == old(cacheWrites) || cacheWrites == old(cacheWrites) + 1
 //@   ensures [C12 flush.noeffect] sameEntries(s) && net == old(net)
 //@ func (FileCache).Write(f, data) (err)
-//@   ensures [C05,C13 filecache.atomic-0600] err == nil ==> disk == diskWrite(old(disk), str(f), bytes(data), 384)
-//@   ensures [C13 filecache.fail-keeps-old] err != nil ==> disk == old(disk)
+//@   ensures [C05,C11,C13 filecache.atomic-0600] err == nil ==> disk == diskWrite(old(disk), str(f), bytes(data), 384)
+//@   ensures [C11,C13 filecache.fail-keeps-old] err != nil ==> disk == old(disk)
 
 //@ func (FileCache).Read(f) (b, err)
 //@   ensures [C13 filecache.reads-the-file] err == nil ==> (diskHas(disk, str(f)) && bytes(b) == diskData(disk, str(f)))
@@ -93,9 +93,10 @@ package setec
 //@   requires storeInv(s) && !s.active.Mutex && ctx != nil && s.client != nil
 //@   ensures [C16 lookupfn.fail-installs-nothing] err != nil ==> (v == nil && sameEntries(s) && cacheWrites == old(cacheWrites))
 //@   ensures [C16 shared lookupfn.success-installs] err == nil ==> (v != nil && isType(v, "Secret") && has(s.active.m, name) && has(s.active.f, name) && isHandleOf(v, s.active.f[name]))
-//@   ensures [C16 lookupfn.served] err == nil ==> served(name, ref(s.active.m[name].Secret))
+//@   ensures [C16 lookupfn.served] err == nil ==> (served(name, ref(s.active.m[name].Secret)) || (old(has(s.active.m, name)) && s.active.m[name].Secret == old(s.active.m[name].Secret)))
+//@   ensures [C12,C15 lookupfn.never-replaces-an-installed-entry] old(has(s.active.m, name)) ==> (sameEntries(s) && cacheWrites == old(cacheWrites))
 //@   ensures [C16 lookupfn.one-request] net == old(net) + 1
-//@   ensures [C13 lookupfn.flushed] (err == nil && s.cache != nil) ==> cacheWrites == old(cacheWrites) + 1
+//@   ensures [C13 lookupfn.flushed] (err == nil && s.cache != nil && !old(has(s.active.m, name))) ==> cacheWrites == old(cacheWrites) + 1
 //@   ensures [C12 shared lookupfn.inv] storeInv(s) && !s.active.Mutex && handlesKept(s)
 //@   ensures [C12 shared lookupfn.values-kept] forall n string :: (n != name && old(has(s.active.m, n))) ==> (has(s.active.m, n) && s.active.m[n] == old(s.active.m[n]) && s.active.m[n].Secret == old(s.active.m[n].Secret) && s.active.m[n].Declared == old(s.active.m[n].Declared))
 //@   ensures [C12 lookupfn.others-kept] forall n string :: n != name ==> (has(s.active.m, n) == old(has(s.active.m, n)) && (has(s.active.m, n) ==> s.active.m[n].Secret == old(s.active.m[n].Secret)))
@@ -252,9 +253,17 @@ package setec
 //@   ensures [C10,C20 names.listed-included] err == nil ==> (forall i int :: (0 <= i && i < len(c.Secrets)) ==> (exists j int :: 0 <= j && j < len(sec) && sec[j] == c.Secrets[i]))
 
 // ---- struct-tag plumbing -------------------------------------------------------------------
+// (stated over i+1 so that the witness instantiates the re-sliced options list directly)
+//@ pred tagListsJSON(tag string) { exists i int :: 0 <= i && i + 1 < seqLen(split(tag, ",")) && seqNth(split(tag, ","), i + 1) == "json" }
 //@ func parseFields(obj) (fi, err)
 //@   ensures [C20 parse.nil-rejected] obj == nil ==> err != nil
 //@   ensures [C20 parse.fail-empty] err != nil ==> len(fi) == 0
+//@   loop 0
+//@     invariant [bound] iter >= 0
+//@     progress [C20 parse.secret-name-is-the-first-tag-part] !defined(fi) || !ok || (fi.secretName == seqNth(split(tag, ","), 0))
+//@     progress [C20 parse.json-only-if-the-verb-is-listed] !defined(fi) || !ok || (fi.isJSON ==> tagListsJSON(tag))
+//@     progress [C20 parse.json-if-the-verb-is-listed] !defined(fi) || !ok || (tagListsJSON(tag) ==> fi.isJSON)
+//@     progress [C20 parse.name-nonempty] !defined(fi) || !ok || (fi.secretName != "")
 //@ func ParseFields(v, namePrefix) (fs, err)
 //@   ensures [C20 parsefields.result] (err == nil ==> (fs != nil && allocated(fs) && fs.prefix == namePrefix && len(fs.fields) > 0)) && (err != nil ==> fs == nil)
 //@ func (*Fields).Secrets(f) (out)
@@ -310,6 +319,7 @@ package setec
 //@   ensures [C20 fapply.known-no-request] old(has(s.active.m, fullName)) ==> net == old(net)
 //@   at call ValueOf: assert [C20 fapply.bytes-private-copy] boxfresh(arg_v)
 //@   at call SetBytes: assert [C20 fapply.setbytes-private-copy] fresh(arg_x)
+//@   ensures [C20 fapply.plain-field-is-always-stored] (err == nil && !f.isJSON && f.unmarshal == nil) ==> fieldStores == old(fieldStores) + 1
 //@ func (*Fields).Apply(f, ctx, s) (err)
 //@   requires f != nil && storeInv(s) && !s.active.Mutex && ctx != nil && s.client != nil
 //@   ensures [C12,C20 apply.inv] storeInv(s) && !s.active.Mutex && handlesKept(s) && valuesKept(s)
@@ -328,6 +338,7 @@ package setec
 //@ callers [C11,C19 poll-only-in-singleflight] (*client/setec.Store).poll only-from (*client/setec.Store).Refresh$1
 //@ callers [C11,C19 apply-only-in-singleflight] (*client/setec.Store).applyUpdates only-from (*client/setec.Store).Refresh$1
 //@ callers [C11 refresh-closure-only-via-dochan] (*client/setec.Store).Refresh$1 only-from (*client/setec.Store).Refresh (value)
+//@ nocall [C05,C11,C13 cache-written-only-atomically] in client/setec: os.WriteFile, os.Create, os.OpenFile, os.Rename, os.Truncate, (*os.File).Write, (*os.File).WriteString
 //@ nocall [C11,C16 coalescing-never-abandoned] in client/setec: (*golang.org/x/sync/singleflight.Group).Forget
 //@ callers [C16 lookup-closure-only-via-do] (*client/setec.Store).lookupSecretInternal$1 only-from (*client/setec.Store).lookupSecretInternal (value)
 // A-interval: a poll interval of at least 5ns (below that 2*interval/10 is 0 and rand.Intn panics)
@@ -337,11 +348,13 @@ package setec
 //@   ensures [C13 run.flush-on-shutdown] s.cache != nil ==> cacheWrites >= old(cacheWrites) + 1
 //@   at call flushCacheLocked: assert [C12,C13 run.flush-under-the-lock] s.active.Mutex
 //@   ensures [C11,C13 run.stops-only-on-cancel] chanFired(doneChan(ctx))
+//@   ensures [C12 run.releases-the-lock] !s.active.Mutex
 //@   at call newTicker: assert [C11 run.period-within-10pct] arg_d >= interval - interval / 10 && arg_d <= interval + interval / 10 && arg_d > 0
 //@   loop 0
 //@     invariant [state] s != nil && !s.active.Mutex && ctx != nil
 //@     invariant [inv] storeInv(s)
 //@     invariant [writes] cacheWrites >= old(cacheWrites)
+//@     invariant [C11 run.keeps-polling] doPoll != nil && doPoll == call_Chan
 
 // ---- watchers ------------------------------------------------------------------------------
 //@ func (watcher).notify(w)
